@@ -46,6 +46,15 @@ def py2_constructs(fn):
             out.append((n, "str.decode('hex') does not exist: AttributeError"))
         elif isinstance(n, ast.Call) and u(n.func) == 'dict' and len(n.args) >= 2:
             out.append((n, 'dict() with two positional arguments raises TypeError'))
+        elif isinstance(n, ast.For) and isinstance(n.target, ast.Name) and not isinstance(n.iter, ast.Call):
+            # dictionary re-keyed while iterated:  for x in D: ... del D[x] ... D[f(x)] = ..
+            base, var = u(n.iter), n.target.id
+            dels = [d for st in n.body for d in ast.walk(st) if isinstance(d, ast.Delete) and any(u(t) == '%s[%s]' % (base, var) for t in d.targets)]
+            dels += [d for st in n.body for d in ast.walk(st) if isinstance(d, ast.Call) and u(d.func) == 'del' and d.args and u(d.args[0]) == '%s[%s]' % (base, var)]
+            adds = [d for st in n.body for d in ast.walk(st) if isinstance(d, ast.Assign) and isinstance(d.targets[0], ast.Subscript) and u(d.targets[0].value) == base
+                    and u(d.targets[0].slice) != var]
+            if dels and adds:
+                out.append((n, 'keys of %s are deleted and re-inserted while it is iterated: RuntimeError (dictionary keys changed during iteration)' % base))
     return out
 
 
